@@ -179,6 +179,9 @@ class Session:
         self.current_task = threading.local()
         self.map_layouts = []
         self.chunks_cut_short_by_stopiteration = 0
+        self.lazy = []
+        self.after_return = False
+        self.late_tasks = 0
         strat = spec.get("strategy", "rtc")
         self.strategy = strat
         self.p = float(spec.get("p", 0.0))
@@ -387,6 +390,128 @@ class Session:
             self.by_ident.pop(t.thread.ident, None)
         return results, completion
 
+    def run_lazy(self, func, chunks, processes, star=False, ordered=True):
+        """imap / imap_unordered: a generator over the results.  Workers make progress only while the
+        consumer is waiting for the next result; if the consumer stops early (an exception leaves the
+        loop), the unfinished tasks are still there when the evaluation returns -- see finish()."""
+        self.pool_engaged += 1
+        map_no = self.maps
+        self.maps += 1
+        numbered, n = [], 0
+        for chunk in chunks:
+            numbered.append([(n + j, item) for j, item in enumerate(chunk)])
+            n += len(chunk)
+        self.map_layouts.append([[k for k, _ in c] for c in numbered])
+        queue = list(enumerate(numbered))
+        queue.reverse()
+        results = {}
+        completion = []
+        base = len(self.threads)
+        workers = []
+
+        def body(t):
+            if not t.sem.acquire(timeout=SEM_TIMEOUT):
+                return
+            try:
+                while queue and self.aborted is None:
+                    i, chunk = queue.pop()
+                    t.task_active = True
+
+                    def call(numbered_item):
+                        number, item = numbered_item
+                        self.tasks_run += 1
+                        if self.after_return:
+                            self.late_tasks += 1
+                        self.current_task.value = (map_no, number)
+                        return func(*item) if star else func(item)
+
+                    try:
+                        results[i] = (True, list(map(call, chunk)))
+                    except Exception as e:
+                        results[i] = (False, e)
+                    except SimAbort:
+                        results[i] = (False, NoProgress(self.aborted))
+                    except BaseException as e:
+                        t.killed = e
+                        results[i] = (False, PoolHang("worker killed by %r" % (e,)))
+                    finally:
+                        self.current_task.value = None
+                        t.task_active = False
+                    completion.append(i)
+                    if queue:
+                        # a result is ready: the consumer gets the baton; this worker parks until resumed
+                        self.current = None
+                        self.main_sem.release()
+                        if not t.sem.acquire(timeout=SEM_TIMEOUT * 4):
+                            return
+            finally:
+                t.done = True
+                self.main_sem.release()
+
+        for k in range(processes):
+            t = SimThread(base + k)
+            th = threading.Thread(target=body, args=(t,), daemon=True, name="sim-worker-%d" % t.id)
+            t.thread = th
+            workers.append(t)
+        self.threads.extend(workers)
+        for t in workers:
+            t.thread.start()
+            self.by_ident[t.thread.ident] = t
+        state = {"resumes": 0}
+
+        def advance():
+            """Let the workers run until one more chunk is complete (or nothing can run)."""
+            runnable = [w for w in workers if not w.done]
+            if not runnable:
+                return False
+            _mon.set_events(TOOL_ID, _E.INSTRUCTION)
+            try:
+                nxt = self._pick_any("L%d" % map_no, state["resumes"], runnable)
+                state["resumes"] += 1
+                self.current = nxt
+                nxt.sem.release()
+                if not self.main_sem.acquire(timeout=SEM_TIMEOUT * 4):
+                    raise HarnessFault("simulated workers never reported back (lazy map)")
+            finally:
+                _mon.set_events(TOOL_ID, 0)
+            return True
+
+        self.lazy.append((workers, advance))
+
+        def consumer():
+            delivered = 0
+            taken = 0
+            while delivered < len(numbered):
+                want = delivered if ordered else (completion[taken] if taken < len(completion) else None)
+                if want is not None and want in results:
+                    ok, val = results[want]
+                    delivered += 1
+                    taken += 1
+                    if not ok:
+                        raise val
+                    for item in val:
+                        yield item
+                    continue
+                if not advance():
+                    raise PoolHang("imap: no worker left but results are missing")
+
+        return consumer()
+
+    def finish(self):
+        """Called when the evaluation has returned: run whatever lazily scheduled work is left (so that
+        its side effects become visible) and report how many tasks ran only now."""
+        self.after_return = True
+        for workers, advance in self.lazy:
+            guard = 0
+            while any(not w.done for w in workers):
+                guard += 1
+                if guard > 100000 or not advance():
+                    break
+        for t in self.threads:
+            if t.thread is not None:
+                t.thread.join(timeout=SEM_TIMEOUT)
+        return self.late_tasks
+
     # ------------------------------------------------------------------ reporting
     def schedule_digest(self):
         return hashlib.blake2b(repr(self.decisions).encode(), digest_size=8).hexdigest()
@@ -539,12 +664,23 @@ class SimPool:
     def starmap(self, func, iterable, chunksize=None):
         return self._run(func, iterable, chunksize, star=True)
 
+    def _lazy(self, func, iterable, chunksize, ordered):
+        items = list(iterable)
+        sess = ACTIVE
+        if sess is None or not items or self._closed:
+            return iter(self._run(func, items, chunksize, unordered=not ordered))
+        chunks = _chunks(items, self._processes, chunksize)
+        if chunks is None:
+            return iter([None] * len(items))
+        return sess.run_lazy(func, chunks, self._processes, ordered=ordered)
+
     def imap(self, func, iterable, chunksize=1):
-        return iter(self._run(func, iterable, chunksize))
+        return self._lazy(func, iterable, chunksize, True)
 
     def imap_unordered(self, func, iterable, chunksize=1):
-        # results in COMPLETION order, as the real pool yields them
-        return iter(self._run(func, iterable, chunksize, unordered=True))
+        # results in COMPLETION order, as the real pool yields them; an exception surfaces as soon as the
+        # failed result is consumed, while other tasks may not have run yet
+        return self._lazy(func, iterable, chunksize, False)
 
     def map_async(self, func, iterable, chunksize=None, callback=None, error_callback=None):
         items = list(iterable)
